@@ -76,6 +76,7 @@ Definition probe_spec (cfg : config) (p : probe) : N :=
 
 (* the C11 interface on this probe: every registered domain set's bit equals the meaning of its patterns *)
 Definition oracle_ok (b : builder) (p : probe) : bool :=
+  String.eqb (q_name (pr_q p)) "" ||       (* no name: the matcher is not consulted *)
   forallb (fun ds => match bm_read (pr_bm p) (ds_index ds) with
                      | Some bit => Bool.eqb bit (existsb (fun s => domain_holds (ds_key ds) s (norm_name (q_name (pr_q p)))
                                                                                 (q_regex_hits (pr_q p))) (ds_domains ds))
